@@ -5,6 +5,16 @@ Operations (see lean/FGVerif/Driver/C11.lean):
   rc           fgutils.its.get_rc
   unreachable  fgutils.utils.get_unreachable_nodes        observable: the *set* of ids
   prune        fgutils.its.prune_its_to_rc / ITS.prune    observable: node set + edge set
+  unreachable_spec / prune_spec   the same calls on inputs for which the Lean matrix model is too slow
+               (n^3 * r > MODEL_COST_MAX): judged by the proved specification only
+
+Every generated call is in the domain of the property whatever its radius: walk counts are never a reason
+to leave the domain (the implementation clamps every matrix power to 0/1 since 5e2d069; the model counts in
+unbounded naturals, and its clamping transcription - proved equal - is what the driver runs; the specification is
+a breadth-first search).
+
+Same-object histories (`history_cases`): ONE graph / ONE ITS object is asked several times with in-place
+edits in between; every answer is judged for the object as it is at the time of the call.
 """
 import hashlib
 import json
@@ -15,14 +25,32 @@ import random
 import networkx as nx
 
 import common
-from common import Atom, Case, Run, call_impl, prepare, ImplError, enc_graph, enc_label, sx, parse_sx
+from common import Atom, Run, call_impl, prepare, ImplError, enc_graph, enc_label, sx, parse_sx
 
 PROOFS = ["FGVerif.Proofs.C11Reach", "FGVerif.Proofs.C11Graph", "FGVerif.Proofs.C11Unreach", "FGVerif.Proofs.C11Rc",
-          "FGVerif.Proofs.C11Prune", "FGVerif.Proofs.C11"]
+          "FGVerif.Proofs.C11Prune", "FGVerif.Proofs.C11Clamp", "FGVerif.Proofs.C11"]
 
 SYMS = ["C", "C", "C", "N", "O", "H", "Cl", "S"]
 ORDERS = [0, 1, 1.5, 2, 3]
-INT64_SAFE = 1 << 62
+# the Lean matrix model multiplies n x n matrices of unbounded naturals r times (about 0.4 us * n^3 * r in the compiled
+# driver); above this cost a case is judged by the proved specification alone (ops unreachable_spec / prune_spec)
+MODEL_COST_MAX = 4_000_000
+
+
+def model_feasible(n, r):
+    return n ** 3 * max(1, r) <= MODEL_COST_MAX
+
+
+class Case(common.Case):
+    """Case whose wire line is rendered once (in the worker process that also asks the driver) and travels with it"""
+    __slots__ = ("_line",)
+
+    def line(self):
+        try:
+            return self._line
+        except AttributeError:
+            self._line = common.Case.line(self)
+            return self._line
 
 
 def hkey(kind, req):
@@ -59,8 +87,13 @@ def impl_rc(g):
     return flat(get_rc(g))
 
 
-def impl_prune(g, r, ins, via):
+def impl_prune(g, r, ins, via, its=None):
     from fgutils.its import ITS, prune_its_to_rc
+    if its is not None:
+        # a long-lived ITS object (same-object histories): its.graph is g at the time of the call
+        assert its.graph is g and via == "ITS.prune"
+        its.prune(radius=r, insert_hydrogens=ins)
+        return flat(its.graph)
     if via == "ITS.prune":
         its = ITS(g.copy())             # complete_aam already ran when the case was built: no change
         its.prune(radius=r, insert_hydrogens=ins)
@@ -168,14 +201,6 @@ def ecc_bound(g):
     return d
 
 
-def int64_safe(g, r):
-    """walk counts stay far below 2^63 (the model's numbers are unbounded; numpy's are int64)"""
-    if g.number_of_nodes() == 0:
-        return True
-    deg = max([sum(len(dd) if g.is_multigraph() else 1 for dd in g.adj[n].values()) for n in g.nodes] + [1])
-    return (r + 1) * g.number_of_nodes() * deg ** r < INT64_SAFE
-
-
 def start_sets(rng, g):
     """(tag, list) pairs"""
     nodes = list(g.nodes)
@@ -191,39 +216,81 @@ def start_sets(rng, g):
         if lone:
             # a start node none of whose neighbours is a start node (defect F8, first part)
             out.append(("starts=lone", [rng.choice(lone)]))
+            # two (or three) path-connected start nodes, listed in BOTH orders: a search per start node that shares its
+            # visited set answers differently when the farther start node comes first (seeded change C11_r3_1)
+            a = rng.choice(lone)
+            comp = [v for v in nx.node_connected_component(nx.Graph(g), a) if v != a]
+            if comp:
+                b = rng.choice(comp)
+                st = [a, b] + ([rng.choice(comp)] if rng.random() < 0.3 else [])
+                out.append(("starts=connected-pair", st))
+                out.append(("starts=connected-pair-reversed", st[::-1]))
     return out
 
 
-def unreachable_case(g, starts, r, tags, meta=None, in_domain=True):
-    out = call_impl(impl_unreachable, g, starts, r)
-    req = [Atom("C11"), Atom("unreachable"), enc_graph(g), [int(s) for s in starts], int(r)]
+def unreachable_case(g, starts, r, tags, meta=None, in_domain=True, spec_only=None):
+    """one call of get_unreachable_nodes.  In the domain whenever the graph is not empty and the start nodes are nodes,
+    for EVERY radius.  Judged by model + specification (op `unreachable`) when the matrix model is affordable, by the
+    proved-sound BFS specification alone (op `unreachable_spec`, no model output, no comparison) otherwise."""
     n = g.number_of_nodes()
+    if spec_only is None:
+        spec_only = not model_feasible(n, r)
+    op = "unreachable_spec" if spec_only else "unreachable"
+    req = [Atom("C11"), Atom(op), enc_graph(g), [int(s) for s in starts], int(r)]      # the graph as it is at call time
+    out = call_impl(impl_unreachable, g, starts, r)
     key = None
     if not isinstance(out, ImplError) and 0 < len(out) < n and starts:
-        key = hkey("u", req)
-    dom = in_domain and n > 0 and all(s in g for s in starts) and int64_safe(g, r)
-    m = {"op": "unreachable", "starts": [int(s) for s in starts], "r": r}
+        key = hkey("U" if spec_only else "u", req)
+    dom = in_domain and n > 0 and all(s in g for s in starts)
+    m = {"op": op, "starts": [int(s) for s in starts], "r": r}
     m.update(meta or {})
-    return Case(req, out, in_domain=dom, meta=m, nontrivial_key=key, tags=tags)
+    return Case(req, out, in_domain=dom, meta=m, nontrivial_key=key, compare_model=not spec_only,
+                tags=tuple(tags) + (("judged=spec-only",) if spec_only else ("judged=model+spec",)))
 
 
 def unreachable_spec_case(g, starts, r, tags, meta=None):
-    """LARGE in-domain inputs: only the proved-sound BFS specification is applied to the implementation's output by the
-    driver (op `unreachable_spec`); the matrix model is not evaluated, so there is no model/implementation comparison"""
-    out = call_impl(impl_unreachable, g, starts, r)
-    req = [Atom("C11"), Atom("unreachable_spec"), enc_graph(g), [int(s) for s in starts], int(r)]
-    n = g.number_of_nodes()
-    key = hkey("U", req) if not isinstance(out, ImplError) and 0 < len(out) < n and starts else None
-    m = {"op": "unreachable_spec", "starts": [int(s) for s in starts], "r": r}
-    m.update(meta or {})
-    return Case(req, out, in_domain=n > 0 and all(s in g for s in starts), meta=m, nontrivial_key=key,
-                compare_model=False, tags=tags)
+    return unreachable_case(g, starts, r, tags, meta, spec_only=True)
+
+
+def gadget_chain(k, w):
+    """x0 -{w parallel two-bond paths}- x1 - ... - xk: k gadgets on k*(w+1)+1 atoms.  w = 2: a chain of k spiro-fused
+    four-rings.  dist(x0, xk) = 2k and the number of walks of length 2k from x0 to xk is w^k: with w = 2, k = 64 (193
+    atoms) or w = 4, k = 32 (161 atoms) it is 2^64, and every longer walk count is a multiple of it as well - the int64
+    walk counts of get_unreachable_nodes before 5e2d069 were 0 there (atom reported unreachable at every radius)."""
+    e = []
+    for i in range(k):
+        x, y = i * (w + 1), (i + 1) * (w + 1)
+        for j in range(1, w + 1):
+            e += [(x, x + j), (x + j, y)]
+    return e, k * (w + 1) + 1
+
+
+def mixed_gadget_chain(parts):
+    """gadgets of different widths in a row: parts = [(k, w), ...]"""
+    e, x = [], 0
+    for k, w in parts:
+        for _ in range(k):
+            y = x + w + 1
+            for j in range(1, w + 1):
+                e += [(x, x + j), (x + j, y)]
+            x = y
+    return e, x + 1
 
 
 def big_shapes():
-    """(name, edge list over 0..n-1, n): long, thin graphs whose diameter allows radii at which the int64 walk counts of
-    get_unreachable_nodes exceed 2^63 although the answer is not trivial"""
+    """(name, edge list over 0..n-1, n): long, thin graphs whose diameter allows radii at which int64 walk counts exceed
+    2^63 although the answer is not trivial; node 0 is an end of the shape.  The doubling-gadget families make the walk
+    count between the two ends an exact multiple of 2^64 (k >= 64 two-fold / k >= 32 four-fold gadgets) or keep it just
+    below (k = 63, 31)."""
     out = []
+    for k in (31, 32, 33, 63, 64, 65):
+        e, n = gadget_chain(k, 2)
+        out.append(("spiro-chain(%d four-rings)" % k, e, n))
+    for k in (16, 31, 32, 33):
+        e, n = gadget_chain(k, 4)
+        out.append(("factor4-gadget-chain(%d)" % k, e, n))
+    e, n = mixed_gadget_chain([(32, 2), (16, 4)])
+    out.append(("mixed-gadget-chain(32x2,16x4)", e, n))
     # chain of 24 five-cliques, consecutive cliques joined by one bond
     e, k = [], 24
     for c in range(k):
@@ -242,58 +309,147 @@ def big_shapes():
     return out
 
 
-def big_cases(rng, per_shape):
-    """in-domain cases in the range where numpy's int64 walk counts wrap around (radius >= 31, still <= diameter + 1)"""
+def far(g, sources):
+    """largest finite distance from the source set"""
+    return max(nx.multi_source_dijkstra_path_length(g, set(sources), weight=None).values())
+
+
+def radii_around(rng, d, lo=0):
+    """radii at, just below, just above and well beyond the largest distance d"""
+    c = {d - 1, d, d + 1, d + rng.randint(2, 12), d + d // 2, rng.randint(min(31, d), max(31, d)), 31, 63, 64, 65}
+    return sorted(r for r in c if lo <= r <= d + d // 2 + 2)
+
+
+def big_shape_cases(rng, idx, n_unreach, n_prune):
+    """in-domain cases on ONE large shape: get_unreachable_nodes, prune_its_to_rc and ITS.prune at radii around and
+    beyond the largest distance from the start set (31 <= r: the range where int64 walk counts exceed 2^63)"""
+    from fgutils.its import ITS
+    name, edges, n = big_shapes()[idx]
+    scheme = rng.choice(IDSCHEMES)
+    ids = ids_for(rng, n, scheme)
+    order = list(ids)
+    es = [(ids[a], ids[b]) for a, b in edges]
+    if rng.random() < 0.5:
+        rng.shuffle(order)
+        rng.shuffle(es)
     cases = []
-    for name, edges, n in big_shapes():
-        scheme = rng.choice(IDSCHEMES)
-        ids = ids_for(rng, n, scheme)
-        order = list(ids)
-        es = [(ids[a], ids[b]) for a, b in edges]
-        if rng.random() < 0.5:
-            rng.shuffle(order)
-            rng.shuffle(es)
-        g = nx.Graph()
+    base = ("big:" + name, "ids=" + scheme, "r>=31(int64-wrap-range)")
+    # ---- get_unreachable_nodes
+    g = nx.Graph()
+    for i in order:
+        g.add_node(i, symbol="C")
+    for a, b in es:
+        g.add_edge(a, b, bond=1)
+    starts_all = [("starts=single-end", [ids[0]]), ("starts=single-other-end", [ids[n - 1]]),
+                  ("starts=single-middle", [ids[n // 2]]),
+                  ("starts=multiple", [ids[0], ids[n // 3], ids[0]]), ("starts=multiple-reversed", [ids[n // 3], ids[0]]),
+                  ("starts=single-random", [rng.choice(ids)])]
+    picks = []
+    for t, st in starts_all:
+        d = far(g, st)
+        picks += [(t, st, r, d) for r in radii_around(rng, d, 31)]
+    rng.shuffle(picks)
+    # half of the budget for "an end atom as start, radius >= its largest distance": that is where the gadget families bite
+    head = [p for p in picks if p[0] in ("starts=single-end", "starts=single-other-end") and p[2] >= p[3]]
+    rest = [p for p in picks if p not in head]
+    chosen = head[:max(1, n_unreach // 2)]
+    chosen += rest[:max(0, n_unreach - len(chosen))]
+    for t, st, r, d in chosen:
+        cases.append(unreachable_case(g, st, r, ("unreachable",) + base + (t,), {"big": name, "farthest": d}))
+    # ---- prune_its_to_rc / ITS.prune: one changed bond, at the end (a pendant atom whose bond to the end atom breaks, or
+    # the first bond of the shape) or in the middle
+    for _ in range(n_prune):
+        its = nx.Graph()
         for i in order:
-            g.add_node(i, symbol="C")
+            its.add_node(i, symbol="C")
         for a, b in es:
+            its.add_edge(a, b, bond=(1, 1))
+        place = rng.choice(["pendant@end", "pendant@end", "pendant@other-end", "bond@end", "bond@middle"])
+        if place.startswith("pendant"):
+            p = max(ids) + rng.randint(1, 3)
+            its.add_node(p, symbol="O")
+            its.add_edge(p, ids[0] if place == "pendant@end" else ids[n - 1], bond=rng.choice([(1, 0), (0, 1), (1, 2)]))
+            rcn = [p, ids[0] if place == "pendant@end" else ids[n - 1]]
+        else:
+            a, b = es[0] if place == "bond@end" else es[len(es) // 2]
+            if place == "bond@end":
+                a, b = [(x, y) for x, y in es if ids[0] in (x, y)][0]
+            its.edges[a, b]["bond"] = (1, 2)
+            rcn = [a, b]
+        d = far(its, rcn)
+        cand = radii_around(rng, d, 31)
+        r = rng.choice(([x for x in cand if x >= d - 1] if rng.random() < 0.7 else cand) or [d])
+        ins = rng.random() < 0.5
+        via = rng.choice(["prune_its_to_rc", "ITS.prune"])
+        if via == "ITS.prune":
+            ITS(its)                    # the constructor completes the atom map in place
+        cases.append(prune_case(its, r, ins, via, ("prune",) + base + ("rc=" + place,), {"big": name, "farthest": d}))
+    return cases
+
+
+def dense_high_radius_cases():
+    """complete graphs (+ one isolated, truly unreachable atom) at radii 25-100: int64 walk counts would exceed 2^63 many
+    times over; small enough for the matrix model (unbounded naturals), so model, specification and implementation are
+    all compared"""
+    cases = []
+    for n, r in ((8, 30), (10, 40), (12, 64), (6, 100), (9, 25), (7, 63), (7, 64)):
+        g = nx.complete_graph(n)
+        for a, b in g.edges:
+            g.edges[a, b]["bond"] = 1
+        for v in g.nodes:
+            g.nodes[v]["symbol"] = "C"
+        g.add_node(n, symbol="C")          # one isolated, truly unreachable node
+        cases.append(unreachable_case(g, [0], r, ("unreachable", "dense-high-radius(K%d,r=%d)" % (n, r)), {"dense": "K%d r=%d" % (n, r)}))
+        its = nx.Graph()
+        for v in g.nodes:
+            its.add_node(v, symbol="C")
+        for a, b in g.edges:
+            its.add_edge(a, b, bond=(1, 1))
+        its.edges[0, 1]["bond"] = (1, 2)
+        cases.append(prune_case(its, r, True, "prune_its_to_rc", ("prune", "dense-high-radius(K%d,r=%d)" % (n, r)), {"dense": "K%d r=%d" % (n, r)}))
+    # small doubling gadgets at which the matrix model is still affordable: model = implementation = specification
+    for k, w in ((6, 2), (8, 2), (10, 2), (5, 4), (6, 4)):
+        e, n = gadget_chain(k, w)
+        g = nx.Graph()
+        for v in range(n):
+            g.add_node(v, symbol="C")
+        for a, b in e:
             g.add_edge(a, b, bond=1)
-        diam = ecc_bound(g)
-        radii = sorted({r for r in (31, 40, 51, 63, 64, 65, 70, diam - 1, diam, diam + 1) if 31 <= r <= diam + 1})
-        starts_all = [("starts=single-end", [ids[0]]), ("starts=single-middle", [ids[n // 2]]),
-                      ("starts=multiple", [ids[0], ids[n // 3], ids[0]]), ("starts=single-random", [rng.choice(ids)])]
-        picks = [(t, st, r) for t, st in starts_all for r in radii]
-        rng.shuffle(picks)
-        for t, st, r in picks[:per_shape]:
-            cases.append(unreachable_spec_case(g, st, r, ("unreachable", "big:" + name, "ids=" + scheme, t, "r>=31(int64-wrap-range)"),
-                                               {"big": name, "diameter": diam}))
+        for r in (2 * k - 1, 2 * k, 2 * k + 1, 3 * k):
+            cases.append(unreachable_case(g, [0], r, ("unreachable", "small-gadget-chain(k=%d,w=%d)" % (k, w)), {"gadget": [k, w]}))
     return cases
 
 
 def rc_case(g, tags, meta=None):
+    req = [Atom("C11"), Atom("rc"), enc_graph(g)]                # the graph as it is at call time
     out = call_impl(impl_rc, g)
-    req = [Atom("C11"), Atom("rc"), enc_graph(g)]
     key = hkey("rc", req) if not isinstance(out, ImplError) and out[1] else None
     m = {"op": "rc"}
     m.update(meta or {})
     return Case(req, out, meta=m, nontrivial_key=key, tags=tags)
 
 
-def prune_case(g, r, ins, via, tags, meta=None):
-    req = [Atom("C11"), Atom("prune"), enc_graph(g), int(r), bool(ins)]
+def prune_case(g, r, ins, via, tags, meta=None, its=None, spec_only=None):
+    """one call of prune_its_to_rc(g) / ITS(g.copy()).prune / its.prune (its: a long-lived ITS object whose graph is g).
+    In the domain for every radius (non-empty graph).  Judged by model + specification (op `prune`; correspondence modulo
+    the choice of fresh ids is decided by the driver) when the matrix model is affordable, by the declarative
+    specification alone (op `prune_spec`) otherwise."""
     n = g.number_of_nodes()
-    out = call_impl(impl_prune, g, r, ins, via)
+    if spec_only is None:
+        spec_only = not model_feasible(n, r)
+    op = "prune_spec" if spec_only else "prune"
+    req = [Atom("C11"), Atom(op), enc_graph(g), int(r), bool(ins)]     # the graph as it is at call time
+    old = set(g.nodes)
+    out = call_impl(impl_prune, g, r, ins, via, its)
     key = None
     if not isinstance(out, ImplError):
-        old = set(g.nodes)
         kept = [x for x in out[0] if x[0] in old]
         if 0 < len(kept) < n:
-            key = hkey("p", req)
-    m = {"op": "prune", "r": r, "insert_hydrogens": ins, "via": via}
+            key = hkey("P" if spec_only else "p", req)
+    m = {"op": op, "r": r, "insert_hydrogens": ins, "via": via}
     m.update(meta or {})
-    # correspondence is decided by the driver (modulo renaming of fresh hydrogen ids)
-    return Case(req, out, in_domain=n > 0 and int64_safe(g, r), meta=m, nontrivial_key=key,
-                compare_model=False, tags=tags + ("via=" + via, "insertH=%d" % ins))
+    return Case(req, out, in_domain=n > 0, meta=m, nontrivial_key=key, compare_model=False,
+                tags=tuple(tags) + ("via=" + via, "insertH=%d" % ins, "judged=spec-only" if spec_only else "judged=model+spec"))
 
 
 REACTIONS = [
@@ -312,29 +468,239 @@ def load_corpus():
     return json.load(open(p))["cases"]
 
 
-def corpus_cases():
-    """fixed regression inputs: the three witnesses of defect F8 (DESIGN §7) and mutant m19"""
+def graph_from_lists(nodes, edges):
+    g = nx.Graph()
+    for n, sym in nodes:
+        g.add_node(n, symbol=sym)
+    for e in edges:
+        if len(e) == 4:
+            g.add_edge(e[0], e[1], bond=(e[2], e[3]))
+        else:
+            g.add_edge(e[0], e[1], bond=e[2])
+    return g
+
+
+def corpus_cases(only=None):
+    """only = None: every entry; "light": all but the large gadget entries; an int: that entry alone.
+    fixed regression inputs: the three witnesses of defect F8 (DESIGN §7), mutant m19, the witnesses of the int64
+    wrap-around repaired by 5e2d069 (doubling-gadget chains, get_unreachable_nodes / prune_its_to_rc / ITS.prune) and
+    same-object histories (stale caches)"""
     from fgutils.parse import parse
     from fgutils.its import ITS
     cases = []
-    for c in load_corpus():
+    for idx, c in enumerate(load_corpus()):
+        if only == "light" and c["op"].startswith("gadget_"):
+            continue
+        if isinstance(only, int) and idx != only:
+            continue
+        tg = {"corpus": c["name"]}
         if c["op"] == "unreachable":
             g = parse(c["pattern"], idx_offset=c.get("idx_offset", 0))
-            cases.append(unreachable_case(g, c["starts"], c["r"], ("corpus", "unreachable"), {"corpus": c["name"]}))
+            cases.append(unreachable_case(g, c["starts"], c["r"], ("corpus", "unreachable"), tg))
         elif c["op"] == "prune_smiles":
             for ins in (True, False):
                 its = ITS.from_smiles(c["smiles"])
-                cases.append(prune_case(its.graph, c["r"], ins, "ITS.prune", ("corpus", "prune"), {"corpus": c["name"]}))
+                cases.append(prune_case(its.graph, c["r"], ins, "ITS.prune", ("corpus", "prune"), tg))
+        elif c["op"] == "unreachable_graph":
+            g = graph_from_lists(c["nodes"], c["edges"])
+            cases.append(unreachable_case(g, c["starts"], c["r"], ("corpus", "unreachable"), tg))
         elif c["op"] in ("prune", "rc"):
-            g = nx.Graph()
-            for n, s in c["nodes"]:
-                g.add_node(n, symbol=s)
-            for a, b, x, y in c["edges"]:
-                g.add_edge(a, b, bond=(x, y))
+            g = graph_from_lists(c["nodes"], c["edges"])
             if c["op"] == "rc":
-                cases.append(rc_case(g, ("corpus", "rc"), {"corpus": c["name"]}))
+                cases.append(rc_case(g, ("corpus", "rc"), tg))
             else:
-                cases.append(prune_case(g, c["r"], c["ins"], "prune_its_to_rc", ("corpus", "prune"), {"corpus": c["name"]}))
+                cases.append(prune_case(g, c["r"], c["ins"], "prune_its_to_rc", ("corpus", "prune"), tg))
+        elif c["op"] in ("gadget_unreachable", "gadget_prune"):
+            # a doubling-gadget chain, written as its parameters (k gadgets of w parallel two-bond paths); ids offset
+            e, n = gadget_chain(c["k"], c["w"])
+            off = c.get("offset", 0)
+            if c["op"] == "gadget_unreachable":
+                g = graph_from_lists([[v + off, "C"] for v in range(n)], [[a + off, b + off, 1] for a, b in e])
+                for r in c["radii"]:
+                    cases.append(unreachable_case(g, [s + off for s in c["starts"]], r, ("corpus", "unreachable", "corpus:int64-wrap-witness"), tg))
+            else:
+                for r, ins, via in c["calls"]:
+                    g = graph_from_lists([[v + off, "C"] for v in range(n)], [[a + off, b + off, 1, 1] for a, b in e])
+                    if c["rc"] == "pendant":
+                        g.add_node(n + off, symbol="O")
+                        g.add_edge(n + off, off, bond=(1, 0))
+                    else:
+                        g.edges[off, off + 1]["bond"] = (1, 2)
+                    if via == "ITS.prune":
+                        ITS(g)
+                    cases.append(prune_case(g, r, ins, via, ("corpus", "prune", "corpus:int64-wrap-witness"), tg))
+        elif c["op"] == "history":
+            cases += run_history(graph_from_lists(c["nodes"], c["edges"]), c["steps"], ("corpus", "history"), tg)
+    return cases
+
+
+# ---------------------------------------------------------------------------
+# same-object histories: ONE graph / ONE ITS object, calls and in-place edits interleaved
+# ---------------------------------------------------------------------------
+def apply_edit(g, e):
+    """in-place edit of a networkx graph; e is a plain list (recorded in the replay)"""
+    k = e[0]
+    if k == "relabel":
+        g.edges[e[1], e[2]]["bond"] = (e[3], e[4])
+    elif k == "add_edge":
+        g.add_edge(e[1], e[2], bond=(e[3], e[4]))
+    elif k == "remove_edge":
+        g.remove_edge(e[1], e[2])
+    elif k == "add_node":
+        g.add_node(e[1], symbol=e[2])
+        if len(e) > 3:
+            g.add_edge(e[1], e[3], bond=(e[4], e[5]))
+    elif k == "remove_node":
+        g.remove_node(e[1])
+    else:
+        raise ValueError("unknown edit %r" % (e,))
+
+
+def random_label(rng, changed):
+    if changed:
+        x, y = rng.sample(ORDERS, 2)
+        return x, y
+    x = rng.choice(ORDERS[1:])
+    return x, x
+
+
+def random_edit(rng, g):
+    """a random applicable in-place edit (or None)"""
+    nodes = list(g.nodes)
+    edges = list(g.edges)
+    for _ in range(8):
+        k = rng.choice(["relabel", "relabel", "relabel", "add_edge", "remove_edge", "add_node", "remove_node"])
+        if k == "relabel" and edges:
+            a, b = rng.choice(edges)
+            old = g.edges[a, b].get("bond")
+            was = isinstance(old, tuple) and old[0] != old[1]
+            x, y = random_label(rng, (not was) if rng.random() < 0.8 else was)
+            if (x, y) != old:
+                return ["relabel", a, b, x, y]
+        elif k == "add_edge" and len(nodes) >= 2:
+            a, b = rng.sample(nodes, 2)
+            if not g.has_edge(a, b):
+                return ["add_edge", a, b, *random_label(rng, rng.random() < 0.5)]
+        elif k == "remove_edge" and edges:
+            a, b = rng.choice(edges)
+            return ["remove_edge", a, b]
+        elif k == "add_node" and nodes:
+            new = rng.choice([max(nodes) + 1, max(nodes) + 3, min(nodes) - 1])
+            return ["add_node", new, rng.choice(SYMS), rng.choice(nodes), *random_label(rng, rng.random() < 0.4)]
+        elif k == "remove_node" and len(nodes) >= 3:
+            return ["remove_node", rng.choice(nodes)]
+    return None
+
+
+class History:
+    """ONE object: its = ITS(g) (the constructor completes the atom map of g in place; its.graph is g until ITS.prune
+    replaces it).  Steps, recorded as plain lists (replayable):
+        ["edit", <edit>]                 in-place edit of its.graph
+        ["rc"] | ["unreachable", starts, r] | ["prune", r, insertH] (= prune_its_to_rc(its.graph, ...)) | ["ITS.prune", r, insertH]
+    Every call gives one Case whose request is the graph AS IT IS AT THE TIME OF THE CALL."""
+
+    def __init__(self, g, tags, meta=None):
+        from fgutils.its import ITS
+        self.its = ITS(g)
+        self.init = sx(enc_graph(g))
+        self.steps = []
+        self.calls = 0
+        self.tags = tuple(tags)
+        self.meta = meta or {}
+
+    def edit(self, e):
+        apply_edit(self.its.graph, e)
+        self.steps.append(["edit", list(e)])
+
+    def call(self, st, judge=True):
+        cur = self.its.graph
+        self.steps.append(list(st))
+        m = {"history": {"init": self.init, "steps": [list(x) for x in self.steps]}, "history_call_no": self.calls}
+        m.update(self.meta)
+        tg = self.tags + ("history:call#%s" % (self.calls if self.calls < 3 else "3+"), "history:op=" + st[0])
+        self.calls += 1
+        if not judge:
+            # replay: earlier calls are only executed (their answers were judged when they were recorded)
+            if st[0] == "rc":
+                call_impl(impl_rc, cur)
+            elif st[0] == "unreachable":
+                call_impl(impl_unreachable, cur, st[1], st[2])
+            elif st[0] == "prune":
+                call_impl(impl_prune, cur, st[1], st[2], "prune_its_to_rc")
+            else:
+                call_impl(impl_prune, cur, st[1], st[2], "ITS.prune", self.its)
+            return None
+        if st[0] == "rc":
+            return rc_case(cur, ("rc",) + tg, m)
+        if st[0] == "unreachable":
+            return unreachable_case(cur, st[1], st[2], ("unreachable",) + tg, m)
+        if st[0] == "prune":
+            return prune_case(cur, st[1], st[2], "prune_its_to_rc", ("prune",) + tg, m)
+        if st[0] == "ITS.prune":
+            return prune_case(cur, st[1], st[2], "ITS.prune", ("prune",) + tg, m, its=self.its)
+        raise ValueError("unknown step %r" % (st,))
+
+
+def run_history(g, steps, tags, meta=None, judge_last_only=False):
+    """execute a recorded history on one object -> the Cases of its calls (only the last call when judge_last_only)"""
+    h = History(g, tags, meta)
+    cases = []
+    for k, st in enumerate(steps):
+        if st[0] == "edit":
+            h.edit(st[1])
+        else:
+            c = h.call(st, judge=not judge_last_only or k == len(steps) - 1)
+            if c is not None:
+                cases.append(c)
+    return cases
+
+
+def changed_bond_atoms(g):
+    out = set()
+    for a, b, d in g.edges(data=True):
+        lab = d.get("bond")
+        if isinstance(lab, tuple) and len(lab) == 2 and lab[0] != lab[1]:
+            out |= {a, b}
+    return sorted(out)
+
+
+def history_cases(rng, budget):
+    """random same-object histories: 2-5 calls on one object, 0-2 in-place edits between consecutive calls (drawn from the
+    object as it is then); the operation is repeated after the edit more often than not (a memo keyed by object identity
+    would answer the second call from the first)"""
+    cases = []
+    ops = ["rc", "unreachable", "prune", "ITS.prune"]
+    while len(cases) < budget:
+        n = rng.randint(3, 12)
+        kind = rng.choice(KINDS)
+        scheme = rng.choice(IDSCHEMES)
+        g = build(rng, n, kind, scheme, rng.choice([0.1, 0.25, 0.5]))
+        h = History(g, ("history", "shape=" + kind, "ids=" + scheme))
+        last = None
+        for k in range(rng.randint(2, 5)):
+            cur = h.its.graph
+            nodes = list(cur.nodes)
+            if not nodes:
+                break
+            op = last if (last is not None and rng.random() < 0.6) else rng.choice(ops)
+            last = op
+            r = rng.choice([0, 0, 1, 1, 2, rng.randint(0, ecc_bound(cur) + 1)])
+            if op == "rc":
+                st = ["rc"]
+            elif op == "unreachable":
+                starts = [rng.choice(nodes) for _ in range(rng.randint(1, 3))]
+                if rng.random() < 0.4:
+                    starts = changed_bond_atoms(cur) or starts
+                st = ["unreachable", [int(x) for x in starts], r]
+            else:
+                st = [op, r, rng.random() < 0.5]
+            cases.append(h.call(st))
+            n_edits = rng.choice([0, 1, 1, 1, 2])
+            for _ in range(n_edits):
+                e = random_edit(rng, h.its.graph)
+                if e is not None:
+                    h.edit(e)
+            cases[-1].tags += ("history:edits-before-next-call=%d" % n_edits,)
     return cases
 
 
@@ -357,11 +723,13 @@ def gen_cases(rng, budget, big):
             radii = list(range(0, diam + 2))
             if len(radii) > 5:
                 radii = sorted(rng.sample(radii, 5) + [0, 1])
+            if rng.random() < 0.3:
+                radii.append(diam + rng.randint(2, 80))      # far beyond the diameter (unclamped walk counts would exceed 2^63)
             base = ("unreachable", "shape=" + kind, "ids=" + scheme, "multigraph" if multi else "simple",
                     "n=%s" % ("0" if n == 0 else "1-9" if n < 10 else "10-26" if n < 27 else "27+"))
             for tag, starts in start_sets(rng, g):
                 for r in (radii if tag != "starts=empty" else radii[:2]):
-                    cases.append(unreachable_case(g, starts, r, base + (tag, "r=%s" % (r if r < 3 else "3+"),)))
+                    cases.append(unreachable_case(g, starts, r, base + (tag, "r=%s" % (r if r < 3 else "3+" if r <= diam + 1 else "beyond-diameter"),)))
             if n and rng.random() < 0.05:
                 bad = max(g.nodes) + rng.randint(1, 3)
                 cases.append(unreachable_case(g, [bad], 1, base + ("starts=not-a-node",)))
@@ -374,14 +742,16 @@ def gen_cases(rng, budget, big):
             radii = list(range(0, diam + 2))
             if len(radii) > 4:
                 radii = sorted(set(rng.sample(radii, 3) + [0, 1]))
+            if rng.random() < 0.3:
+                radii.append(diam + rng.randint(2, 80))
             for r in radii:
                 for ins in (True, False):
                     if rng.random() < 0.35:
                         g2 = g.copy()
                         ITS(g2)                     # constructor completes the atom map in place
-                        cases.append(prune_case(g2, r, ins, "ITS.prune", ("prune",) + base + ("r=%s" % (r if r < 3 else "3+"),)))
+                        cases.append(prune_case(g2, r, ins, "ITS.prune", ("prune",) + base + ("r=%s" % (r if r < 3 else "3+" if r <= diam + 1 else "beyond-diameter"),)))
                     else:
-                        cases.append(prune_case(g, r, ins, "prune_its_to_rc", ("prune",) + base + ("r=%s" % (r if r < 3 else "3+"),)))
+                        cases.append(prune_case(g, r, ins, "prune_its_to_rc", ("prune",) + base + ("r=%s" % (r if r < 3 else "3+" if r <= diam + 1 else "beyond-diameter"),)))
             # the rc nodes as an explicit start set through get_unreachable_nodes as well
             if n:
                 from fgutils.its import get_rc
@@ -406,35 +776,44 @@ def smiles_cases(rng):
     return cases
 
 
-def overflow_probe(r_run, rng):
-    """high-radius dense cases: numpy's int64 walk counts wrap around, the model's do not.
-    Reported in the evidence, never decides the verdict."""
-    cases = []
-    for n, r in ((8, 30), (10, 40), (12, 64), (6, 100), (9, 25)):
-        g = nx.complete_graph(n)
-        for a, b in g.edges:
-            g.edges[a, b]["bond"] = 1
-        for v in g.nodes:
-            g.nodes[v]["symbol"] = "C"
-        g.add_node(n, symbol="C")          # one isolated, truly unreachable node
-        c = unreachable_case(g, [0], r, ("probe=int64-wraparound",), {"probe": "K%d r=%d" % (n, r)}, in_domain=False)
-        cases.append(c)
-    outs = r_run.evaluate(cases)
-    dis = sum(1 for o in outs if not o.corr or o.spec_fail)
-    r_run.extra_cov["int64_wraparound_probe"] = {
-        "cases": len(cases), "disagreements_with_unbounded_model": dis,
-        "note": "complete graphs, radius 25-100: walk counts exceed 2^63; not modelled, reported only"}
+def _task_rng(seed, k):
+    return random.Random(seed * 1000003 + 7919 * (k + 1))
 
 
-def _shard(args):
-    """thorough tier: one shard = own generator (seeded by (seed, k)) + own driver process"""
-    seed, k, n_small, n_big, n_huge = args
-    rng = random.Random(seed * 1000003 + 7919 * (k + 1))
-    cases = gen_cases(rng, n_small, False) + gen_cases(rng, n_big, True) + (gen_cases(rng, n_huge, 2) if n_huge else [])
+def _task(args):
+    """one unit of work = own generator (seeded by (VERIF_SEED, task number)) + own driver process; run in a worker process,
+    results are consumed in task order, so a run is determined by its seed whatever the scheduling"""
+    seed, k, what = args
+    rng = _task_rng(seed, k)
+    kind = what[0]
+    if kind == "fixed":
+        cases = corpus_cases("light") + smiles_cases(rng) + dense_high_radius_cases()
+    elif kind == "corpus":
+        cases = corpus_cases(what[1])
+    elif kind == "big":
+        cases = big_shape_cases(rng, what[1], what[2], what[3])
+    elif kind == "history":
+        cases = history_cases(rng, what[1])
+    else:
+        _, n_small, n_big, n_huge = what
+        cases = gen_cases(rng, n_small, False) + gen_cases(rng, n_big, True) + (gen_cases(rng, n_huge, 2) if n_huge else [])
     d = common.Driver()
     replies = d.batch([c.line() for c in cases])
     d.close()
     return cases, replies
+
+
+def task_list(tier, seed):
+    quick = tier == "quick"
+    tasks = [("fixed",)]
+    tasks += [("corpus", i) for i, c in enumerate(load_corpus()) if c["op"].startswith("gadget_")]     # the large witnesses: one task each
+    tasks += [("big", i, 4 if quick else 14, 2 if quick else 8) for i in range(len(big_shapes()))]
+    tasks += [("history", 700 if quick else 4000) for _ in range(2 if quick else 16)]
+    if quick:
+        tasks += [("gen", 1500, 320, 0) for _ in range(8)]
+    else:
+        tasks += [("gen", 12000, 2500, 250) for _ in range(64)]
+    return [(seed, k, t) for k, t in enumerate(tasks)]
 
 
 class _Precomputed:
@@ -469,53 +848,56 @@ def run(tier, seed):
     r = Run("C11", tier, seed)
     if not prepare(r, PROOFS, "C11"):
         return 2
-    rng = r.rng
     counters = {"bad_wf": 0}
-    cases = corpus_cases() + smiles_cases(rng)
-    cases += big_cases(rng, 12 if tier == "quick" else 40)
-    if tier == "quick":
-        cases += gen_cases(rng, 12000, False)
-        cases += gen_cases(rng, 2600, True)
-        post_check(r, r.evaluate(cases), counters)
-    else:
-        post_check(r, r.evaluate(cases), counters)
-        real_driver = r.driver
-        shards = [(seed, k, 12000, 2500, 250) for k in range(64)]
-        ctx = multiprocessing.get_context("fork")
-        with ctx.Pool(min(16, os.cpu_count() or 1)) as pool:
-            for cs, replies in pool.imap(_shard, shards):       # ordered: results do not depend on scheduling
-                r.driver = _Precomputed(replies)
-                post_check(r, r.evaluate(cs), counters)
-        r.driver = real_driver
+    ctx = multiprocessing.get_context("fork")
+    with ctx.Pool(min(16, os.cpu_count() or 1)) as pool:
+        for cs, replies in pool.imap(_task, task_list(tier, seed)):       # ordered: results do not depend on scheduling
+            r.driver = _Precomputed(replies)
+            post_check(r, r.evaluate(cs), counters)
+    r.driver = None
     bad_wf = counters["bad_wf"]
     r.extra_cov["inputs_violating_theorem_hypotheses"] = bad_wf
+    r.extra_cov["judged_by_specification_only"] = r.dist.get("tag:judged=spec-only", 0)
+    r.extra_cov["same_object_history_calls"] = sum(v for k, v in r.dist.items() if k.startswith("tag:history:op="))
+    r.extra_cov["model_cost_limit"] = "n^3*r <= %d: matrix model evaluated and compared; above: specification only" % MODEL_COST_MAX
     machinery = []
     if bad_wf:
         # a defect of the harness (its generator left the theorems' domain): never a VIOLATION, never a pass -> exit 2
         machinery.append("ERROR property=C11 %d generated inputs are not well-formed graphs (harness defect)" % bad_wf)
-    overflow_probe(r, rng)
     r.assumptions = [
         "networkx graphs are modelled by Model/Graph.lean (insertion-ordered nodes and adjacency); nx.adjacency_matrix entry = number of parallel edges (no 'weight' attributes), checked against the code by this harness",
-        "numpy int64 walk counts are modelled by unbounded Nat; wrap-around is not modelled (int64_wraparound_probe reports it); the cases that are "
-        "compared with the matrix model keep (r+1)*n*maxdeg^r below 2^62",
-        "LARGE in-domain inputs (tags big:*: a chain of 24 five-cliques, a 35-ring polyacene, the cycle C140, a 100-atom path with triangles; any id scheme; "
-        "radii 31..diameter+1, i.e. in the range where the implementation's int64 walk counts exceed 2^63 and wrap around): the property's answer "
-        "(unreachable = not within r steps of a start node) is decided on the implementation's output by the proved-sound BFS specification "
-        "C11.specUnreachable alone (driver op unreachable_spec); the matrix model is NOT evaluated on them (40-80 s per case with unbounded "
-        "naturals), so there is no model/implementation comparison for these cases - they are judged by the specification only",
+        "walk counts: the implementation clamps every matrix power to 0/1 (repair 5e2d069: `(D @ A > 0).astype(...)`), so its int64 numbers stay <= radius+1 per "
+        "entry (Reach.cpowsum_le) and cannot wrap; the property theorems are stated for the model that counts walks in unbounded Nat (C11.getUnreachable, C11.pruneItsToRc); "
+        "the driver evaluates the literal transcription of the clamping loop (C11.getUnreachableClamped, C11.pruneItsToRcClamped), proved equal to the counting model for every "
+        "graph, start list and radius (C11.getUnreachableClamped_eq, C11.pruneItsToRcClamped_eq); the specification is a breadth-first search. No radius and no graph size is "
+        "excluded from the domain: every generated get_unreachable_nodes / prune_its_to_rc / ITS.prune call on a non-empty graph whose start nodes are nodes decides the verdict, "
+        "including the range where unclamped int64 counts exceed 2^63 (dense graphs at radii 25-100, big:* shapes, doubling-gadget chains with 2^64 shortest walks)",
+        "LARGE inputs (n^3*r > %d; tags judged=spec-only: big:* shapes of 100-196 atoms - spiro chains of 31-65 four-rings, factor-4 gadget chains, a mixed gadget chain, "
+        "a chain of 24 five-cliques, a 35-ring polyacene, the cycle C140, a 100-atom path with triangles - and the corpus witnesses of 5e2d069; any id scheme; radii "
+        "31..1.5*(largest distance)+2): the Lean matrix model is too slow there (0.4 us * n^3 * r with unbounded naturals), so the implementation's output is judged by the "
+        "proved-sound specifications alone - C11.specUnreachable (BFS; driver op unreachable_spec) and C11.specPrune (declarative pruned graph; driver op prune_spec); "
+        "there is no model/implementation comparison for these cases" % MODEL_COST_MAX,
         "empty graphs (networkx refuses to build the matrix) and start nodes that are not nodes (KeyError) are outside the domain",
         "prune: which fresh id is given to which cut bond is not fixed by the property; model and implementation are compared modulo a renaming of the fresh ids",
+        "same-object histories: the request of every call is the wire form of the object at the time of the call; the model has no state, so an answer that depends on "
+        "an earlier call or an earlier state of the object fails the specification for the current state",
     ]
     rc = r.finish(
         level="proof",
-        rule="corpus (F8 witnesses, m19 witness) + ITS.from_smiles reactions + random graphs: 12 shapes (paths, trees, rings, rings with tails, stars, sparse, disconnected, dense, edgeless) x "
+        rule="corpus (F8 witnesses, m19 witness, witnesses of the int64 wrap-around 5e2d069 for get_unreachable_nodes / prune_its_to_rc / ITS.prune, same-object histories) + "
+             "ITS.from_smiles reactions + random graphs: 12 shapes (paths, trees, rings, rings with tails, stars, sparse, disconnected, dense, edgeless) x "
              "5 id schemes (0..n-1, from 1, offset, sparse, negative; insertion order shuffled half of the time) x simple/multigraph (parallel edges, self-loops) x start sets "
-             "(empty, single, multiple with duplicates, isolated, lone, reaction centre) x r = 0..diameter+1; large thin graphs (100-142 atoms: clique chain, "
-             "polyacene, long cycle, path with triangles) x radii 31..diameter+1 (int64 wrap-around range) judged by the BFS specification only; ITS-labelled graphs for get_rc / prune_its_to_rc / ITS.prune x insert_hydrogens; "
+             "(empty, single, multiple with duplicates in random order, two or three path-connected start nodes in both orders, isolated, lone, reaction centre) x r = 0..diameter+1 and (30% of the graphs) one radius 2-80 beyond the diameter; dense graphs at radii 25-100 and small doubling-gadget chains "
+             "(model + specification); large thin graphs (100-196 atoms: spiro chains of k four-rings and factor-4 gadget chains at radii 2k-1, 2k, 2k+1 and beyond, mixed gadget chain, "
+             "clique chain, polyacene, long cycle, path with triangles) x start at either end / middle / several x radii 31..1.5*farthest+2, for get_unreachable_nodes AND "
+             "prune_its_to_rc / ITS.prune (changed bond at an end, on a pendant atom, in the middle), judged by the specification only; ITS-labelled graphs for get_rc / prune_its_to_rc / "
+             "ITS.prune x insert_hydrogens; same-object histories: one graph / one ITS object, 2-5 calls (get_rc, get_unreachable_nodes, prune_its_to_rc, ITS.prune; ITS.prune "
+             "repeatedly on one object) with 0-2 in-place edits (bond relabelled, edge added/removed, atom added/removed) between calls, every answer judged for the object as it is then; "
              "non-trivial = answer neither empty nor everything, distinct by request",
         checker_cmd="cd lean && lake build FGVerif.Proofs.C11 && lake env lean FGVerif/Audit/C11.lean",
         explanation="theorems in lean/FGVerif/Proofs/C11*.lean about Model/C11.lean (walk counting = BFS distance for every graph, start set and radius); model tied to fgutils by differential "
-                    "testing; executable specs (BFS `withinList`, declarative pruned-graph description) applied to every implementation output")
+                    "testing; executable specs (BFS `withinList`, declarative pruned-graph description) applied to every implementation output; inputs too large for the matrix model "
+                    "are judged by these specifications alone (counted in judged_by_specification_only)")
     # exit 1 iff a VIOLATION line was printed; machinery problems are exit 2 (exit 1 if both happened)
     for ln in machinery:
         print(ln)
@@ -573,22 +955,28 @@ def replay(path):
         return 1
     w = parse_sx(line)
     op = w[1]
-    g = dec_graph(w[2])
-    if op == "unreachable":
-        c = unreachable_case(g, [int(x) for x in w[3]], int(w[4]), ("replay",))
-    elif op == "unreachable_spec":
-        c = unreachable_spec_case(g, [int(x) for x in w[3]], int(w[4]), ("replay",))
-    elif op == "rc":
-        c = rc_case(g, ("replay",))
+    meta = rp.get("meta", {}) or {}
+    hist = meta.get("history")
+    if hist:
+        # a same-object history: rebuild the object, run the recorded calls and edits in order, judge the last call
+        g0 = dec_graph(parse_sx(hist["init"]))
+        print("same-object history (%d steps): %s" % (len(hist["steps"]), json.dumps(hist["steps"])))
+        c = run_history(g0, hist["steps"], ("replay",), judge_last_only=True)[-1]
     else:
-        c = prune_case(g, int(w[3]), w[4] == "1", rp.get("meta", {}).get("via", "prune_its_to_rc"), ("replay",))
+        g = dec_graph(w[2])
+        if op in ("unreachable", "unreachable_spec"):
+            c = unreachable_case(g, [int(x) for x in w[3]], int(w[4]), ("replay",), spec_only=op == "unreachable_spec")
+        elif op == "rc":
+            c = rc_case(g, ("replay",))
+        else:
+            c = prune_case(g, int(w[3]), w[4] == "1", meta.get("via", "prune_its_to_rc"), ("replay",), spec_only=op == "prune_spec")
     d = common.Driver()
     rep = d.ask(c.line())
     d.close()
     o = common.Outcome(c, rep)
-    print("request :", c.line())
-    print("impl    :", common.sx_of(o.impl_c))
-    print("model   :", common.sx_of(o.model))
+    print("request :", c.line()[:3000])
+    print("impl    :", common.sx_of(o.impl_c)[:3000])
+    print("model   :", common.sx_of(o.model)[:3000])
     print("spec_impl=%s spec_model=%s extra=%s" % (o.spec_impl, o.spec_model, common.sx_of(o.extra)))
     if o.spec_fail:
         print("VIOLATION property=C11 replay=%s" % path)
